@@ -284,4 +284,10 @@ func checkC02(c *Ctx) {
 
 	// O5 iteration coverage of the two scope passes over gauges.
 	c.checkScopePassCoverage("O5 pass-coverage", "gauges", "gaugesSlice", "gauge")
+	c.checkRegistryPassCoverage("O5 registry-coverage", "Report", "report")
+	c.checkRegistryPassCoverage("O5 registry-coverage", "CachedReport", "cachedReport")
+	// O6: the last update is not lost around Close / re-acquire / racing first use (shared with C07, C09)
+	c.checkReportBeforeClear("O6 flag-before-report", "O6 report-before-clear")
+	c.checkSliceSibling("O6 slice-sibling", "gauges", "gaugesSlice")
+	c.checkDoubleChecked("O6 double-checked", c.newLockEngine())
 }
